@@ -45,6 +45,7 @@ def choose(n: int, label: str = "c") -> int:
     path is infeasible and the n branches are exhaustive.
     """
     if n <= 1:
+        _CHOICES.append((label, 0))
         return 0
     if not is_tracing():
         with ResumedTracing():
